@@ -4,6 +4,7 @@
 mod core;
 mod event;
 mod mutex;
+mod semaphore;
 
 use crate::core::*;
 use std::io::{BufRead, Write};
@@ -20,6 +21,9 @@ fn make(prim: &str, flavour: &str, cfg: &[u64]) -> Option<Box<dyn Exec>> {
         ("event", "sync") => Box::new(event::EventExec::<Sync>::new(cfg)),
         ("mutex", "local") => Box::new(mutex::MutexExec::<Local>::new(cfg)),
         ("mutex", "sync") => Box::new(mutex::MutexExec::<Sync>::new(cfg)),
+        ("semaphore", "local") => Box::new(semaphore::SemExec::<Local>::new(cfg)),
+        ("semaphore", "sync") => Box::new(semaphore::SemExec::<Sync>::new(cfg)),
+        ("semaphore", "shared") => Box::new(semaphore::SharedSemExec::<Sync>::new(cfg)),
         _ => return None,
     })
 }
